@@ -1,0 +1,251 @@
+//go:build verif
+
+package serf
+
+import (
+	"net"
+	"time"
+
+	"github.com/hashicorp/memberlist"
+)
+
+// This file is only compiled with the "verif" build tag. It adds accessors
+// and type aliases for the external verification harness; it contains no
+// logic of its own and changes nothing when the tag is off.
+
+// Message structs and codec.
+type (
+	VerifMessageJoin          = messageJoin
+	VerifMessageLeave         = messageLeave
+	VerifMessagePushPull      = messagePushPull
+	VerifMessageUserEvent     = messageUserEvent
+	VerifMessageQuery         = messageQuery
+	VerifMessageQueryResponse = messageQueryResponse
+	VerifUserEvents           = userEvents
+	VerifUserEvent            = userEvent
+	VerifFilterNode           = filterNode
+	VerifFilterTag            = filterTag
+	VerifRelayHeader          = relayHeader
+	VerifNodeKeyResponse      = nodeKeyResponse
+	VerifKeyRequest           = keyRequest
+)
+
+const (
+	VerifMessageLeaveType            = uint8(messageLeaveType)
+	VerifMessageJoinType             = uint8(messageJoinType)
+	VerifMessagePushPullType         = uint8(messagePushPullType)
+	VerifMessageUserEventType        = uint8(messageUserEventType)
+	VerifMessageQueryType            = uint8(messageQueryType)
+	VerifMessageQueryResponseType    = uint8(messageQueryResponseType)
+	VerifMessageConflictResponseType = uint8(messageConflictResponseType)
+	VerifMessageKeyRequestType       = uint8(messageKeyRequestType)
+	VerifMessageKeyResponseType      = uint8(messageKeyResponseType)
+	VerifMessageRelayType            = uint8(messageRelayType)
+
+	VerifQueryFlagAck         = queryFlagAck
+	VerifQueryFlagNoBroadcast = queryFlagNoBroadcast
+
+	VerifFilterNodeType = uint8(filterNodeType)
+	VerifFilterTagType  = uint8(filterTagType)
+
+	VerifTagMagicByte = tagMagicByte
+)
+
+func VerifEncodeMessage(t uint8, msg any, newTimeFormat bool) ([]byte, error) {
+	return encodeMessage(messageType(t), msg, newTimeFormat)
+}
+
+func VerifDecodeMessage(buf []byte, out any) error { return decodeMessage(buf, out) }
+
+func VerifEncodeRelayMessage(t uint8, addr net.UDPAddr, nodeName string, msg any) ([]byte, error) {
+	return encodeRelayMessage(messageType(t), addr, nodeName, msg)
+}
+
+func VerifEncodeFilter(f uint8, filt any) ([]byte, error) {
+	return encodeFilter(filterType(f), filt)
+}
+
+func (s *Serf) VerifEncodeTags(tags map[string]string) []byte { return s.encodeTags(tags) }
+func (s *Serf) VerifDecodeTags(buf []byte) map[string]string  { return s.decodeTags(buf) }
+
+// Delegates of an instance (the same objects memberlist calls).
+func (s *Serf) VerifDelegate() memberlist.Delegate           { return &delegate{serf: s} }
+func (s *Serf) VerifEventDelegate() memberlist.EventDelegate { return &eventDelegate{serf: s} }
+func (s *Serf) VerifConflictDelegate() memberlist.ConflictDelegate {
+	return &conflictDelegate{serf: s}
+}
+func (s *Serf) VerifPingDelegate() memberlist.PingDelegate { return &pingDelegate{serf: s} }
+func (s *Serf) VerifMergeDelegate() interface {
+	memberlist.MergeDelegate
+	memberlist.AliveDelegate
+} {
+	return &mergeDelegate{serf: s}
+}
+
+// VerifStatusLTime returns the status time recorded for a member.
+func (s *Serf) VerifStatusLTime(name string) (LamportTime, bool) {
+	s.memberLock.RLock()
+	defer s.memberLock.RUnlock()
+	m, ok := s.members[name]
+	if !ok {
+		return 0, false
+	}
+	return m.statusLTime, true
+}
+
+// VerifRecentIntent returns the buffered intent for a not-yet-known member.
+func (s *Serf) VerifRecentIntent(name string) (t uint8, ltime LamportTime, ok bool) {
+	s.memberLock.RLock()
+	defer s.memberLock.RUnlock()
+	i, ok := s.recentIntents[name]
+	return uint8(i.Type), i.LTime, ok
+}
+
+// VerifBroadcastJoin is the call Join makes once memberlist has joined.
+func (s *Serf) VerifBroadcastJoin() error { return s.broadcastJoin(s.clock.Time()) }
+
+// VerifReap runs the two reap passes of handleReap with an explicit time.
+func (s *Serf) VerifReap(now time.Time) {
+	s.memberLock.Lock()
+	defer s.memberLock.Unlock()
+	s.failedMembers = s.reap(s.failedMembers, now, s.config.ReconnectTimeout)
+	s.leftMembers = s.reap(s.leftMembers, now, s.config.TombstoneTimeout)
+	reapIntents(s.recentIntents, now, s.config.RecentIntentTimeout)
+}
+
+// VerifLeaveTime returns the wall-clock time recorded when the member was
+// marked failed/left.
+func (s *Serf) VerifLeaveTime(name string) (time.Time, bool) {
+	s.memberLock.RLock()
+	defer s.memberLock.RUnlock()
+	m, ok := s.members[name]
+	if !ok {
+		return time.Time{}, false
+	}
+	return m.leaveTime, true
+}
+
+// VerifFailedLeftNames lists the names on the failed and left lists.
+func (s *Serf) VerifFailedLeftNames() (failed, left []string) {
+	s.memberLock.RLock()
+	defer s.memberLock.RUnlock()
+	for _, m := range s.failedMembers {
+		failed = append(failed, m.Name)
+	}
+	for _, m := range s.leftMembers {
+		left = append(left, m.Name)
+	}
+	return
+}
+
+// VerifOpenQuery identifies a registered QueryResponse.
+type VerifOpenQuery struct {
+	LTime LamportTime
+	ID    uint32
+}
+
+func (s *Serf) VerifOpenQueries() []VerifOpenQuery {
+	s.queryLock.RLock()
+	defer s.queryLock.RUnlock()
+	out := make([]VerifOpenQuery, 0, len(s.queryResponse))
+	for lt, q := range s.queryResponse {
+		out = append(out, VerifOpenQuery{LTime: lt, ID: q.id})
+	}
+	return out
+}
+
+// VerifQueryResponseID exposes the (LTime, id) of a QueryResponse.
+func (r *QueryResponse) VerifID() (LamportTime, uint32) { return r.lTime, r.id }
+
+// VerifQueryID exposes the id and origin of a delivered query.
+func (q *Query) VerifID() uint32 { return q.id }
+
+func (s *Serf) VerifEventMinTime() LamportTime {
+	s.eventLock.RLock()
+	defer s.eventLock.RUnlock()
+	return s.eventMinTime
+}
+
+func (s *Serf) VerifQueryMinTime() LamportTime {
+	s.queryLock.RLock()
+	defer s.queryLock.RUnlock()
+	return s.queryMinTime
+}
+
+func (s *Serf) VerifClocks() (member, event, query LamportTime) {
+	return s.clock.Time(), s.eventClock.Time(), s.queryClock.Time()
+}
+
+// VerifQueued returns a copy of everything queued on the three broadcast
+// queues (intents, queries, events). It reads through GetBroadcasts, i.e. it
+// counts as one transmission of each entry: harnesses that want entries to
+// stay queued configure a large RetransmitMult.
+func (s *Serf) VerifQueued() (intents, queries, events [][]byte) {
+	dump := func(q *memberlist.TransmitLimitedQueue) [][]byte {
+		var out [][]byte
+		for _, b := range q.GetBroadcasts(0, 1<<30) {
+			out = append(out, append([]byte(nil), b...))
+		}
+		return out
+	}
+	return dump(s.broadcasts), dump(s.queryBroadcasts), dump(s.eventBroadcasts)
+}
+
+// VerifSnapshotter exposes the snapshotter of an instance (nil without one).
+func (s *Serf) VerifSnapshotter() *Snapshotter { return s.snapshotter }
+
+// Coalescers: the real unexported implementations behind the package's own
+// coalescer interface.
+type VerifCoalescer interface {
+	Handle(Event) bool
+	Coalesce(Event)
+	Flush(outChan chan<- Event)
+}
+
+func VerifNewMemberCoalescer() VerifCoalescer {
+	return &memberEventCoalescer{
+		lastEvents:   make(map[string]EventType),
+		latestEvents: make(map[string]coalesceEvent),
+	}
+}
+
+func VerifNewUserCoalescer() VerifCoalescer {
+	return &userEventCoalescer{events: make(map[string]*latestUserEvents)}
+}
+
+func VerifCoalescedEventCh(outCh chan<- Event, shutdownCh <-chan struct{},
+	cPeriod, qPeriod time.Duration, c VerifCoalescer) chan<- Event {
+	return coalescedEventCh(outCh, shutdownCh, cPeriod, qPeriod, c)
+}
+
+// VerifMemberCoalescerLastKind returns the kind last reported for a member.
+func VerifMemberCoalescerLastKind(c VerifCoalescer, name string) (EventType, bool) {
+	mc := c.(*memberEventCoalescer)
+	k, ok := mc.lastEvents[name]
+	return k, ok
+}
+
+func VerifKRandomMembers(k int, members []Member, filterFunc func(Member) bool) []Member {
+	return kRandomMembers(k, members, filterFunc)
+}
+
+// VerifBacklog is the number of events the snapshotter has accepted but not
+// yet processed (synchronisation aid only).
+func (s *Snapshotter) VerifBacklog() int { return len(s.inCh) + len(s.streamCh) }
+
+// VerifStreamKeyResp runs the key-reply aggregation loop on the given replies.
+func (s *Serf) VerifStreamKeyResp(numNodes int, replies []NodeResponse) *KeyResponse {
+	resp := &KeyResponse{
+		Messages:    make(map[string]string),
+		Keys:        make(map[string]int),
+		PrimaryKeys: make(map[string]int),
+		NumNodes:    numNodes,
+	}
+	ch := make(chan NodeResponse, len(replies))
+	for _, r := range replies {
+		ch <- r
+	}
+	close(ch)
+	s.keyManager.streamKeyResp(resp, ch)
+	return resp
+}
